@@ -40,6 +40,8 @@ func checkC08(p *Prog, r *Report) {
 	c08RawBody(p, r)
 	privateFrames(p, r, "C08.private-frames")
 	c08ReplayEncoding(p, r)
+	c08ReexecutePerHost(p, r)
+	c08NoRelay(p, r)
 }
 
 func c08Wiring(p *Prog, r *Report) {
@@ -516,7 +518,11 @@ func c08ReplayEncoding(p *Prog, r *Report) {
 	}
 	var produce func(v ssa.Value, depth int) prod
 	produce = func(v ssa.Value, depth int) prod {
-		for _, o := range origins(v) {
+		os := origins(v)
+		if depth == 2 {
+			os = originsInter(p, v, 2) // a frame handed to a constructor helper is judged where the helper is called
+		}
+		for _, o := range os {
 			ex, ok := o.(*ssa.Extract)
 			if !ok || ex.Index != 0 {
 				return prod{why: "the stored frame is " + valDesc(o) + ", not the result of an encoding"}
@@ -614,4 +620,250 @@ func c08ReplayEncoding(p *Prog, r *Report) {
 	if n < 2 {
 		fatalf("rule %s: only %d stores of re-prepare frames found (2 confirmed by hand)", rule, n)
 	}
+}
+
+
+// c08ReexecutePerHost: the bound on re-executions after a re-prepare belongs to one host.
+func c08ReexecutePerHost(p *Prog, r *Report) {
+	const rule = "C08.reexecute-per-host"
+	r.Rule(rule, "the state that limits how often a request is executed again on a host after a re-prepare is tied to that host: it is compared with the request's current host, or it is reset wherever the current host changes; a limit that survives a change of host (retry on the next host, fail-over after a lost connection) makes the next host skip its own re-prepare-and-execute")
+	rr := requestRoles(p)
+	var exec *ssa.Function
+	for _, m := range p.methodsOf(rr.req) {
+		if m.Name() == "Execute" && len(m.Params) == 2 {
+			exec = m
+		}
+	}
+	if exec == nil {
+		fatalf("rule %s: the request's Execute method was not found", rule)
+	}
+	// the current-host field: the *Host field the host walk stores the query plan's next host into
+	var hostF *types.Var
+	eachInstr(rr.execLoop, func(in ssa.Instruction) {
+		if st, ok := in.(*ssa.Store); ok {
+			if fa, ok := st.Addr.(*ssa.FieldAddr); ok && typeIs(fieldOfAddr(fa).Type(), "proxycore", "Host") && namedOf(fa.X.Type()) == rr.req {
+				hostF = fieldOfAddr(fa)
+			}
+		}
+	})
+	if hostF == nil {
+		fatalf("rule %s: the request's current-host field was not found", rule)
+	}
+	scope := []*ssa.Function{exec}
+	for _, h := range withCallees(p, exec, 2) {
+		if h != exec && h != rr.execLoop && recvNamed(h) == rr.req && h.Parent() == nil && !replyFuncs(p, rr.req)[h] && onlyCalledFrom(p, h, exec, 3) {
+			scope = append(scope, h)
+		}
+	}
+	// guard state: request fields Execute (and its private helpers) write
+	guard := map[*types.Var]bool{}
+	compared := false
+	for _, f := range scope {
+		eachInstr(f, func(in ssa.Instruction) {
+			switch x := in.(type) {
+			case *ssa.Store:
+				if fa, ok := x.Addr.(*ssa.FieldAddr); ok && namedOf(fa.X.Type()) == rr.req {
+					if fld := fieldOfAddr(fa); fld != hostF && !isMutexType(fld.Type()) {
+						guard[fld] = true
+					}
+				}
+			case *ssa.BinOp:
+				if x.Op != token.EQL && x.Op != token.NEQ {
+					return
+				}
+				fx, _ := loadedField(x.X)
+				fy, _ := loadedField(x.Y)
+				if (fx == hostF && fy != nil && fy != hostF && typeIs(fy.Type(), "proxycore", "Host")) ||
+					(fy == hostF && fx != nil && fx != hostF && typeIs(fx.Type(), "proxycore", "Host")) {
+					compared = true
+				}
+			}
+		})
+	}
+	var bad []string
+	if len(guard) == 0 {
+		bad = append(bad, "Execute keeps no state that limits re-execution after a re-prepare (an always-UNPREPARED host would bounce the request forever)")
+	}
+	if !compared {
+		// every change of the current host must reset the guard state
+		for _, m := range p.methodsOf(rr.req) {
+			changes := false
+			wrote := map[*types.Var]bool{}
+			eachInstr(m, func(in ssa.Instruction) {
+				if st, ok := in.(*ssa.Store); ok {
+					if fa, ok := st.Addr.(*ssa.FieldAddr); ok && namedOf(fa.X.Type()) == rr.req {
+						if fieldOfAddr(fa) == hostF {
+							if _, fresh := fa.X.(*ssa.Alloc); !fresh {
+								changes = true
+							}
+						}
+						wrote[fieldOfAddr(fa)] = true
+					}
+				}
+			})
+			if !changes {
+				continue
+			}
+			for g := range guard {
+				if !wrote[g] {
+					bad = append(bad, fmt.Sprintf("%s changes the current host but leaves %s as it was, and Execute does not compare its state with the current host: what was counted for the previous host is held against the new one (its re-prepared statement is never executed there)", m.Name(), g.Name()))
+				}
+			}
+		}
+	}
+	r.check(len(bad) == 0, rule, rr.req.Obj().Name()+".Execute", p.Pos(exec.Pos()), "", strings.Join(dedupe(bad), " || "))
+
+	// the limit covers every prepared statement of the request: a BATCH is answered UNPREPARED once
+	// per missing child, so a limit of one re-execution per host never gets a batch with two
+	// missing children executed anywhere
+	qF := p.Field("codecs", "PartialBatch", "Queries")
+	var counters []*ssa.Function
+	for _, f := range scope {
+		reads := false
+		eachInstr(f, func(in ssa.Instruction) {
+			if fa, ok := in.(*ssa.FieldAddr); ok && fieldOfAddr(fa) == qF {
+				reads = true
+			}
+			if fv, ok := in.(*ssa.Field); ok && fieldOfVal(fv) == qF {
+				reads = true
+			}
+		})
+		if reads {
+			counters = append(counters, f)
+		}
+	}
+	var lb []string
+	if len(counters) == 0 {
+		lb = append(lb, "the number of re-executions allowed on a host does not depend on how many prepared statements the request refers to (the children of a BATCH): a batch with two statements missing on every host is re-prepared twice per host and executed on none")
+	} else {
+		usesCount := false
+		for _, f := range scope {
+			eachInstr(f, func(in ssa.Instruction) {
+				bo, ok := in.(*ssa.BinOp)
+				if !ok {
+					return
+				}
+				switch bo.Op {
+				case token.GEQ, token.LSS, token.GTR, token.LEQ:
+				default:
+					return
+				}
+				for _, side := range []ssa.Value{bo.X, bo.Y} {
+					for _, o := range origins(side) {
+						if c, ok := o.(*ssa.Call); ok {
+							for _, cf := range counters {
+								if c.Call.StaticCallee() == cf {
+									usesCount = true
+								}
+							}
+						}
+					}
+				}
+				if f != exec {
+					return
+				}
+			})
+			for _, cf := range counters {
+				if cf == f && f == exec {
+					usesCount = true // counted in Execute itself
+				}
+			}
+		}
+		if !usesCount {
+			lb = append(lb, "the count of the request's prepared statements is not what the number of re-executions on a host is compared with")
+		}
+	}
+	r.check(len(lb) == 0, rule, rr.req.Obj().Name()+".Execute:limit", p.Pos(exec.Pos()), "", strings.Join(dedupe(lb), " || "))
+}
+
+
+// c08NoRelay: an UNPREPARED reply for a statement that is in the prepared cache never reaches
+// the request (and so the client) as it is.
+func c08NoRelay(p *Prog, r *Report) {
+	const rule = "C08.no-relay"
+	r.Rule(rule, "once the UNPREPARED interception found the statement in the prepared cache, every outcome keeps the reply away from the request: the re-prepare was registered on the connection, or the request was told to move on to the next host (Execute(true)); the interception then reports the reply as handled")
+	cc := p.Named("proxycore", "ClientConn")
+	var fn *ssa.Function
+	for _, m := range p.methodsOf(cc) {
+		if callsDirectly(m, func(c ssa.CallInstruction) bool {
+			cm := c.Common()
+			return cm.IsInvoke() && cm.Method.Name() == "Load" && recvNamedIs(cm.Method, "proxycore", "PreparedCache")
+		}) {
+			fn = m
+		}
+	}
+	if fn == nil {
+		fatalf("rule %s: no ClientConn method looks the prepared cache up", rule)
+	}
+	var reqPar *ssa.Parameter
+	for _, par := range fn.Params {
+		if typeIs(par.Type(), "proxycore", "Request") {
+			reqPar = par
+		}
+	}
+	if reqPar == nil {
+		fatalf("rule %s: %s does not take the request", rule, fn.Name())
+	}
+	sendFn := p.methodOf(cc, "Send")
+	s := newSim(p)
+	s.Inline = func(f *ssa.Function) bool { return false }
+	s.Model = func(sm *Sim, st *State, call ssa.CallInstruction, callee *ssa.Function) []*State {
+		cm := call.Common()
+		switch {
+		case cm.IsInvoke() && cm.Method.Name() == "Load" && recvNamedIs(cm.Method, "proxycore", "PreparedCache"):
+			hit, miss := st.clone(), st.clone()
+			hit.aux["hit"] = "1"
+			SetCallResult(hit, call, avTup(AV{K: avNonNil}, avBool(true)))
+			SetCallResult(miss, call, avTup(AV{K: avNil}, avBool(false)))
+			return []*State{hit, miss}
+		case callee != nil && callee == sendFn:
+			okSt, fail := st.clone(), st.clone()
+			okSt.addEff("registered")
+			SetCallResult(okSt, call, AV{K: avNil})
+			SetCallResult(fail, call, AV{K: avNonNil})
+			return []*State{okSt, fail}
+		case cm.IsInvoke() && cm.Method.Name() == "Execute" && recvNamedIs(cm.Method, "proxycore", "Request"):
+			nb, known := sm.eval(st, cm.Args[0]).isBool()
+			if cm.Value == ssa.Value(reqPar) && known && nb {
+				st.addEff("moved-on")
+			} else {
+				st.addEff("other-execute")
+			}
+			return []*State{st}
+		}
+		if callee != nil && callee.Signature.Results().Len() == 2 && p.InRepo(callee) {
+			// helpers with an error result (re-encoding the cached request): both outcomes
+			if _, isErr := callee.Signature.Results().At(1).Type().Underlying().(*types.Interface); isErr {
+				okSt, fail := st.clone(), st.clone()
+				SetCallResult(okSt, call, avTup(AV{K: avNonNil}, AV{K: avNil}))
+				SetCallResult(fail, call, avTup(AV{K: avNil}, AV{K: avNonNil}))
+				return []*State{okSt, fail}
+			}
+		}
+		return nil
+	}
+	init := newState()
+	init.vals[reqPar] = avSymbol("req")
+	outs := s.Run(fn, init)
+	r.count("sim_states", s.Nodes)
+	var bad []string
+	n := 0
+	for _, o := range outs {
+		if o.Panic || o.St.aux["hit"] != "1" {
+			continue
+		}
+		n++
+		desc := fmt.Sprintf("path ending at %s {%s ret=%s}", p.Pos(o.Pos), effStr(o.St), o.Ret)
+		k := o.St.eff["registered"] + o.St.eff["moved-on"]
+		if k != 1 || o.St.eff["other-execute"] > 0 {
+			bad = append(bad, "statement in the cache, but the request is neither re-prepared here nor moved on to the next host exactly once: "+desc)
+		}
+		if b, known := o.Ret.isBool(); !known || !b {
+			bad = append(bad, "statement in the cache, but the reply is reported as not handled: the UNPREPARED error goes to the request and the client sees it although the proxy could re-prepare the statement: "+desc)
+		}
+	}
+	if n == 0 {
+		bad = append(bad, "no path on which the statement is found in the cache")
+	}
+	r.check(len(bad) == 0, rule, "ClientConn."+fn.Name(), p.Pos(fn.Pos()), fmt.Sprintf("%d cache-hit paths", n), strings.Join(dedupe(bad), " || "))
 }
